@@ -24,7 +24,8 @@ JOBS = int(os.environ.get("VERIF_JOBS", "16"))
 
 FLAVOURS = {
     "core": dict(python=False, cxxflags="-O2 -g1", ldflags=""),
-    "plain": dict(python=True, cxxflags="-O2 -g1", ldflags=""),
+    # like upstream's Release build: assert() compiled out (the sanitizer flavours keep it)
+    "plain": dict(python=True, cxxflags="-O2 -g1 -DNDEBUG", ldflags=""),
     "asan": dict(python=True,
                  cxxflags="-O1 -g1 -fno-omit-frame-pointer -fsanitize=address",
                  ldflags="-fsanitize=address"),
